@@ -11,6 +11,8 @@ import (
 
 	"godcheck/core"
 	"godcheck/props"
+
+	"golang.org/x/tools/go/ssa"
 )
 
 func main() {
@@ -20,10 +22,50 @@ func main() {
 	verif := flag.String("verif", "/verif", "verif root (evidence, known findings)")
 	only := flag.String("only", "", "regexp: evaluate/report only matching obligations (replay)")
 	list := flag.Bool("list", false, "list obligations")
+	noVariants := flag.Bool("no-variants", false, "evaluate only the program as written (no inlined variants)")
+	dumpFuncs := flag.Bool("dump-funcs", false, "print the names of all top-level functions and methods of the main module (baseline for the inlining variants)")
+	selftest := flag.Bool("selftest-inline", false, "build the inlined variants of the program and run go/ssa's sanity checker on every function")
 	flag.Parse()
 	seed, _ := strconv.ParseInt(os.Getenv("VERIF_SEED"), 10, 64)
 	if t := os.Getenv("VERIF_TIER"); t != "" && *tier == "" {
 		*tier = t
+	}
+	if *dumpFuncs {
+		p, err := core.Load(*repo, false)
+		if err != nil {
+			fmt.Println(err)
+			os.Exit(2)
+		}
+		for _, n := range p.AllFuncNames() {
+			fmt.Println(n)
+		}
+		os.Exit(0)
+	}
+	if *selftest {
+		p, err := core.Load(*repo, false)
+		if err != nil {
+			fmt.Println(err)
+			os.Exit(2)
+		}
+		bad := 0
+		core.IgnoreBaseline = true
+		for lvl := 1; lvl <= 2; lvl++ {
+			v := p.Variant(lvl)
+			n := 0
+			for rel := range v.SSAPkgs {
+				for _, f := range core.SSAPkgFuncs(v.SSA, v.SSAPkgs[rel]) {
+					n++
+					if !ssa.SanityCheckFunction(f, os.Stdout) {
+						bad++
+					}
+				}
+			}
+			fmt.Printf("variant %d: %d helpers inlined and hidden, %d functions sanity-checked, %d bad\n", lvl, len(v.Inlined), n, bad)
+		}
+		if bad > 0 {
+			os.Exit(1)
+		}
+		os.Exit(0)
 	}
 	rule, ok := props.Registry[*prop]
 	if !ok {
@@ -38,11 +80,40 @@ func main() {
 		r.Check("loader", "the repository loads and type-checks", func(o *core.O) { o.Unres("%v", err) })
 		os.Exit(finish(r, *verif, seed))
 	}
-	r := core.NewRun(*prop, *tier, p)
-	if *only != "" {
-		r.Only = regexp.MustCompile(*only)
+	run := func(pp *core.Prog) *core.Run {
+		r := core.NewRun(*prop, *tier, pp)
+		if *only != "" {
+			r.Only = regexp.MustCompile(*only)
+		}
+		props.RunAll(*prop, r)
+		return r
 	}
-	props.RunAll(*prop, r)
+	r := run(p)
+	// The rule tables are intra-procedural. When they do not hold on the program
+	// as written, they are evaluated again on behaviour-equivalent variants in
+	// which small single-purpose helpers are inlined (core.Prog.Variant): a helper
+	// extracted from an anchored function must not raise an alarm. The check
+	// passes when it holds on the program or on one of these variants.
+	if r.Failing(*verif) > 0 && !*noVariants {
+		for lvl := 1; lvl <= 2; lvl++ {
+			pv := p.Variant(lvl)
+			rv := run(pv)
+			if os.Getenv("GODCHECK_DEBUG_VARIANTS") != "" {
+				fmt.Printf("debug: variant %d: %d failing; inlined %d helpers\n", lvl, rv.Failing(*verif), len(pv.Inlined))
+				for _, o := range rv.Obl {
+					if o.Verdict != core.Held {
+						fmt.Printf("debug:   %s %s :: %v\n", o.Verdict, o.Key, o.Msgs)
+					}
+				}
+			}
+			if rv.Failing(*verif) == 0 {
+				rv.Extra["evaluated_on"] = fmt.Sprintf("inlined variant %d of the program (the rules did not hold on the program as written: %d obligations; helpers inlined at every use: %v)", lvl, r.Failing(*verif), pv.Inlined)
+				fmt.Printf("note: %s holds on inlined variant %d (not on the program as written); %d helpers inlined\n", *prop, lvl, len(pv.Inlined))
+				r = rv
+				break
+			}
+		}
+	}
 	if *list {
 		for _, o := range r.Obl {
 			fmt.Printf("%-10s %-70s sites=%d\n", o.Verdict, o.Key, o.Sites)
